@@ -21,6 +21,12 @@ func checkC13(c *fw.Ctx) {
 	c.NotDecidedClause("tamper detection as such (cryptography, C02)")
 	// the origin named in the header must be a valid server name: the validator's port rule
 	checkPortParse(c, "4 verify")
+	if c.InlinedReports == nil {
+		c.InlinedReports = map[string]bool{}
+	}
+	// positive evidence (the default name is stored under a condition that implies neither "no
+	// destination in the header" nor "the header names the default"): also valid on the inlined view
+	c.InlinedReports["4 verify|the default destination is filled in only when the header carries none"] = true
 	checkLenientAcceptors(c, "4 verify", "spec.ParseAndValidateServerName")
 	pkg := c.P.Pkg("fclient")
 	// 1. same struct on both sides
@@ -360,6 +366,10 @@ func checkC13(c *fw.Ctx) {
 							okT := false
 							for _, l := range term {
 								if (l.Atom == "("+dest+` == "")` && l.Pos) || (l.Atom == "("+dest+` != "")` && !l.Pos) {
+									okT = true
+								}
+								// the header names the default itself: storing the default changes nothing
+								if (l.Atom == "("+dest+" == param:destination)" || l.Atom == "(param:destination == "+dest+")") && l.Pos {
 									okT = true
 								}
 							}
